@@ -105,7 +105,8 @@ def is_nontrivial(seq, preset) -> bool:
 
 
 # ----------------------------------------------------------------- scale family
-SCALE_PRESETS = ((4000, 150, 32), (128, 16, 16), (129, 17, 3), (8, 2, 1), (256, 0, 0))
+SCALE_PRESETS = ((4000, 150, 32), (128, 16, 16), (129, 17, 3), (8, 2, 1), (256, 0, 0),
+                 (8, 40, 4))  # (the last: a prefix table larger than the name table)
 SCALE_KINDS = ("names300", "runs", "longstrings", "bulk1100")
 
 
